@@ -18,8 +18,9 @@ and for the helpers
     kill()  : with no arguments -> kill_except() ;  kill_except : 'ICs' is appended unless named -> `killNoArgsKillsICs`
     _add_ground(node) : does nothing when a node `0` exists, else adds `W node 0`
 
-Props/C04Ops.lean proves `portops_table_matches : Gen.PortOps.table = MNA.expectedOps` (by `decide`): the table the
-experiments of Model/PortOps.lean were written from.  A change of the probing scheme in the code is a broken obligation.
+Props/C04Ops.lean proves `experiments_from_source` (each experiment of Model/PortOps.lean IS the one built by `interpRow` /
+`buildExp` from the generated row) and `helpers_from_source` (the helpers do what `zProbe` / `vProbe` model).  A change of the
+probing scheme in the code is a broken obligation.
 """
 import ast
 import os
